@@ -11,7 +11,7 @@ RULE = ("animal_populations.main(code, feed, grass, strategy, remove_first_month
         "3 breeding strategies, horizons 12..120 and monthly feed/grass series built as pattern x the herds' own requirement (zero, "
         "partial, ample, steps, spikes, noise); the ledger of every species and month is recomputed from the returned flow lists "
         "(index alignment handled explicitly), transfers between dairy and meat herds are matched, and slaughter is audited against "
-        "hours per size class, animals available and the target herd.  Non-trivial = a run with starvation deaths > 0 in some species, "
+        "hours per size class, animals available and the target herd.  1-3 starting head counts are overridden in a quarter of the cases; the world aggregate is always run.  Non-trivial = a run with starvation deaths > 0 in some species, "
         "a slaughter clamp (target or hours) binding in some species-month and a non-zero dairy->meat transfer; distinct by input hash.")
 ASSUMPTIONS = ["relative tolerance 1e-9 on head counts (probe: residual 9e-15 on the unchanged tree)",
                "flow lists without a month-zero entry (births, transfers, retirements) are one shorter than stock lists"]
